@@ -70,11 +70,15 @@ def make_schema(sources, async_resolver, with_resolver=True):
         if async_resolver:
             async def sub(root, ctx, info, **kw):
                 await asyncio.sleep(0)
+                if ctx.get("fail"):
+                    raise RuntimeError("source cannot be created")
                 src = Source(ctx["events"], ctx["delays"])
                 sources.append(src)
                 return src
         else:
             def sub(root, ctx, info, **kw):
+                if ctx.get("fail"):
+                    raise RuntimeError("source cannot be created")
                 if ctx.get("reiterable"):
                     return Reiterable(ctx["events"], ctx["delays"], sources)
                 src = Source(ctx["events"], ctx["delays"])
@@ -118,15 +122,15 @@ def check(tier, seed):
     run = Run("C17", tier, seed)
     n = nontrivial = 0
 
-    def consume(schema, query, events, delays, sources, runtime_factory=None, variables=None, reiterable=False):
+    def consume(schema, query, events, delays, sources, runtime_factory=None, variables=None, reiterable=False, fail=False, instrumentation=None):
         loop = asyncio.new_event_loop()
         try:
             asyncio.set_event_loop(loop)
             rt = AsyncIORuntime(loop=loop) if runtime_factory is None else runtime_factory()
 
             async def go():
-                stream = await subscribe(schema, parse(query), variables=variables, context_value={"events": events, "delays": delays, "reiterable": reiterable}, runtime=rt,
-                                         initial_value={"ping": person(99), "tick": 99})          # (the root value of the subscription resolver; no event is it)
+                stream = await subscribe(schema, parse(query), variables=variables, context_value={"events": events, "delays": delays, "reiterable": reiterable, "fail": fail}, runtime=rt,
+                                         instrumentation=instrumentation, initial_value={"ping": person(99), "tick": 99})          # (the root value of the subscription resolver; no event is it)
                 out = []
                 async for res in stream:
                     out.append(res)
@@ -226,7 +230,19 @@ def check(tier, seed):
         ("aliased-typename-next-to-a-field", "subscription { tick kind: __typename }", AsyncIORuntime, True, ExecutionError),
         ("typename-through-fragment", "subscription { tick ...T } fragment T on Subscription { __typename }", AsyncIORuntime, True, ExecutionError),
         ("typename-through-inline-fragment", "subscription { ... on Subscription { __typename } tick }", AsyncIORuntime, True, ExecutionError),
+        ("subscription-resolver-fails", "subscription { tick }", AsyncIORuntime, True, RuntimeError),
     ]
+    from py_gql.execution import Instrumentation
+
+    class _Stage(Instrumentation):
+        def __init__(self):
+            self.log = []
+
+        def on_execution_start(self):
+            self.log.append("execution+")
+
+        def on_execution_end(self):
+            self.log.append("execution-")
     for label, query, rt_cls, with_res, exc_cls in cases:
         for async_resolver in (False, True):
             sources = []
@@ -239,7 +255,15 @@ def check(tier, seed):
                     res = subscribe(schema, parse(query), context_value={"events": events, "delays": [0]}, runtime=BlockingRuntime())
                     run.violation("subscribe:refusals", "%s: accepted (%r) instead of raising %s" % (label, res, exc_cls.__name__), w, True)
                 else:
-                    out = consume(schema, query, events, [0], sources)
+                    stage = _Stage()
+                    try:
+                        out = consume(schema, query, events, [0], sources, fail=label == "subscription-resolver-fails", instrumentation=stage)
+                    finally:
+                        # whatever the refusal, an execution stage that was started has been ended (the deferred failure of an asynchronous subscription
+                        # resolver included)
+                        if stage.log not in ([], ["execution+", "execution-"]):
+                            run.violation("subscribe:started-stage-is-ended", "%s (%s subscription resolver): execution hooks %r" % (label, "async" if async_resolver else "sync", stage.log),
+                                          dict(w, hooks=stage.log), True)
                     run.violation("subscribe:refusals", "%s: accepted (%d results) instead of raising %s" % (label, len(out), exc_cls.__name__), w, True)
             except exc_cls:
                 pass
